@@ -20,6 +20,8 @@ RULE = (
     'detectXMLEncoding (str, text streams and byte streams at arbitrary positions; tell() must be unchanged), getMetaInfo '
     '(attribute order, quoting, case) and encodingByMediaType. Non-trivial: >=2 sources of encoding information present; '
     'distinct by row.'
+    ' broken: markup the HTML parser rejects or that has attributes without value, as text and bytes, under four (media type, transport '
+    'charset) settings: the sniffers and getEncodingInfo must not raise and the transport charset still wins.'
 )
 ASSUMPTIONS = [
     'documents have at least 4 characters (shorter ones are pinned to None by the suite)',
@@ -145,8 +147,9 @@ def check_table(case, ctx):
 
 DECLS = ['', '<?xml version="1.0"?>', '<?xml version="1.0" encoding="koi8-r"?>', "<?xml version='1.0' encoding='ISO-8859-5' standalone='yes'?>",
          '<?xml version="1.0" encoding="UTF-16"?>', ' <?xml version="1.0" encoding="koi8-r"?>', '<?xml encoding="x"',
-         '<?xml version="1.0"\n encoding="windows-1251" ?>']
-DECL_ENC = [None, None, 'koi8-r', 'iso-8859-5', 'utf-16', None, None, 'windows-1251']
+         '<?xml version="1.0"\n encoding="windows-1251" ?>', '<?xml version="1.0" encoding = "koi8-r"?>',
+         "<?xml version = '1.0' encoding\t=\n'ISO-8859-5'?>"]
+DECL_ENC = [None, None, 'koi8-r', 'iso-8859-5', 'utf-16', None, None, 'windows-1251', 'koi8-r', 'iso-8859-5']
 
 
 @st.composite
@@ -198,8 +201,11 @@ def meta_case(draw):
     a1 = f'{he}={q}{ct}{q}'
     a2 = f'content={q}{content}{q}'
     attrs = [a1, a2, 'lang="en"'] if draw(st.booleans()) else [a2, a1]
+    if draw(st.integers(0, 3)) == 0:
+        attrs.insert(draw(st.integers(0, len(attrs))), draw(st.sampled_from(['itemscope', 'data-x', 'charset'])))  # attribute without value
     tag = '<' + draw(st.sampled_from(['meta', 'META'])) + ' ' + ' '.join(attrs) + draw(st.sampled_from(['>', ' />', '/>']))
-    before = draw(st.sampled_from(['<html><head>', '<head><title>x</title>', '<meta name="a" content="b">', '']))
+    before = draw(st.sampled_from(['<html><head>', '<head><title>x</title>', '<meta name="a" content="b">', '', '<meta itemscope>',
+                                   '<!DOCTYPE html>', '<!-- c -->']))
     second = draw(st.sampled_from(['', '<meta http-equiv="Content-Type" content="text/html; charset=ascii">']))
     return {'doc': before + tag + second + '</head>', 'media': media.lower(), 'charset': charset,
             'kind': draw(st.sampled_from(['str', 'bytes']))}
@@ -242,3 +248,49 @@ SUBS = [
     Sub('meta', check_meta, strategy=meta_case(), quick=2000, thorough=100000, shards_quick=2),
     Sub('media', check_media, enumerate=media_cases, shards_quick=1, shards_thorough=1),
 ]
+
+
+# --------------------------------------------------------------------------- markup the HTML parser chokes on: sniffing must not raise
+
+BROKEN = ['<![foo]><meta http-equiv="Content-Type" content="text/html; charset=koi8-r">', '<![foo]>', '<![\n', '<meta charset>', '<meta itemscope>',
+          '<meta http-equiv content>', '<a b="c', '<!-- unclosed', '<?php ?><meta http-equiv="Content-Type" content="text/html; charset=koi8-r">']
+
+
+def broken_cases(tier):
+    for doc in BROKEN:
+        for kind in ('str', 'bytes'):
+            for media, http in (('text/html', None), ('text/html', 'utf-8'), ('text/plain', None), ('application/xml', None)):
+                yield {'doc': doc, 'kind': kind, 'media': media, 'http': http}
+
+
+class _Resp:
+    def __init__(self, media, charset):
+        from email.message import Message
+
+        self.m = Message()
+        self.m['Content-Type'] = media + ('; charset=' + charset if charset else '')
+
+    def info(self):
+        return self.m
+
+
+def check_broken(case, ctx):
+    doc = case['doc'] if case['kind'] == 'str' else case['doc'].encode('ascii')
+    with lib('getMetaInfo'):
+        encutils.getMetaInfo(doc)
+    with lib('getEncodingInfo'):
+        info = encutils.getEncodingInfo(_Resp(case['media'], case['http']), doc, log=_quiet_log())
+    if case['http'] and info.encoding != case['http']:
+        raise Violation('broken:transport-charset-not-used', f'{case}: {info.encoding!r}')
+    ctx.case([case['doc'], case['kind'], case['media'], case['http']], True, case)
+
+
+def _quiet_log():
+    import logging
+
+    log = logging.getLogger('c20-quiet')
+    log.setLevel(logging.CRITICAL)
+    return log
+
+
+SUBS.append(Sub('broken', check_broken, enumerate=broken_cases, shards_quick=1, shards_thorough=1))
